@@ -793,7 +793,7 @@ class SyncState:  # pylint: disable=too-many-instance-attributes, too-many-publi
             else:
                 self._changeset_storage.discard(ent)
                 if ent[other_side(side)].changed and not ent[other_side(side)].oid:
-                    ent[other_side(side)].changed = 0  # otherwise there is a change that is not in the changeset
+                    ent[other_side(side)]._changed = 0  # otherwise there is a change that is not in the changeset
         elif key == "priority":
             if val > ent.priority and val > 0:
                 # move to later on priority drop below zero
